@@ -194,5 +194,20 @@ def replay_interference(ctx, src, o1, o2):
     return diff, {'wgsl': src, 'options': [o1, o2]}
 
 
+def native(ctx):
+    done = False
+    for src, with_rt in ((SRC_NO_RT, False), (SRC_RT, True)):
+        for n_ in (7, 31, 32, 33, 64, 1024):
+            s_ = src.replace('array<vec4<f32>, 7>', f'array<vec4<f32>, {n_}>')
+            for bits in range(16):
+                opts = {'derive_bytemuck_vertex': bool(bits & 1), 'derive_bytemuck_host_shareable': bool(bits & 2),
+                        'derive_encase_host_shareable': bool(bits & 4), 'derive_serde': bool(bits & 8)}
+                rep, det = replay(ctx, s_, opts, bits % 3, with_rt)
+                if rep and not done:
+                    done = True
+                    ctx.report('C09/native', f'options {opts}, array length {n_}: {det.get("failed") or det.get("real")}', det, True, det)
+                elif not rep:
+                    ctx.replayed_ok += 1
+
 if __name__ == '__main__':
-    sys.exit(main('C09', run))
+    sys.exit(main('C09', run, native))
